@@ -153,13 +153,19 @@ def configs(tier: str) -> List[Cfg]:
         packs = ["base", "norm+sym", "sym", "inf2", "inf2r", "rfac", "rfac2", "rfac+sym", "sfac", "ver:a,b", "dropempty", "inf1+rfac", "two", "norm+atomlast", "oneway+inf1", "onewayexp+sym"]
         dbs = ("RuleDB", "Forest", "Forget")
     else:
-        stats_list = [(), ("a",), ("a", "ab"), ("ab",)]
+        stats_list = [(), ("a",), ("a", "ab")]
         packs = ["base", "norm", "norm+sym", "sym", "inf1", "inf2", "inf2r", "rfac", "rfac+sym", "rfaconly", "sfac", "ver:a,b", "ver:e",
                  "dropempty", "inf1+rfac", "inf2+rfac+sym", "two", "noinit", "swapped", "norm+inf2+sym", "sfac+sym", "verfirst:a,ab+sym",
-                 "rfac+iter", "sym+iter", "rfac2", "rfac2+sym", "rfac2+inf1", "norm+atomlast", "atomlast+sym", "oneway", "oneway+inf1", "onewayexp+inf1+sym", "oneway+inf2"]
-        dbs = DBS
-        classes = classes + [c for c in dw.start_classes("thorough") if c not in classes]
+                 "rfac+iter", "sym+iter", "rfac2", "rfac2+sym", "rfac2+inf1", "norm+atomlast", "atomlast+sym", "oneway", "oneway+inf1", "onewayexp+inf1+sym", "oneway+inf2",
+                 "rfac3", "oneway2+inf1", "flip"]
+        dbs = ("RuleDB", "Forest", "Forget")
     res = []
+    if tier != "quick":
+        res += configs("quick")  # explored with deviation bound 2 (see _worker)
+        for c in [c for c in dw.start_classes("thorough") if c not in classes]:
+            for pk in ("base", "norm+sym", "rfac", "rfac2", "inf2", "oneway+inf1"):
+                for db in ("RuleDB", "Forest"):
+                    res.append(Cfg.of(c, pk, db))
     for c in classes:
         for st in stats_list:
             for pk in packs:
@@ -180,14 +186,33 @@ def configs(tier: str) -> List[Cfg]:
             res.append(GCfg(g, (), "g", db))
     for g, pk, _genuine in dg.reverse_universes():
         res.append(GCfg(g, (), pk, "Forest"))
-    return res
+    seen = set()
+    uniq = []
+    for c in res:
+        if c not in seen:
+            seen.add(c)
+            uniq.append(c)
+    return uniq
+
+
+_QUICK: Any = None
+
+
+def bound_for(cfg, tier: str) -> int:
+    """quick: 1.  thorough: 2 on the configurations of the quick tier, 1 on the extension."""
+    global _QUICK
+    if tier == "quick":
+        return 1
+    if _QUICK is None:
+        _QUICK = {c.sid() for c in configs("quick")}
+    return 2 if cfg.sid() in _QUICK else 1
 
 
 def _worker(arg) -> Acc:
     cfgj, tier = arg
     cfg = Cfg.from_json(cfgj)
     acc = Acc()
-    ce = ConfigExplorer(acc, cfg, tier, [checker], db_hook=make_db_hook(cfg))
+    ce = ConfigExplorer(acc, cfg, tier, [checker], db_hook=make_db_hook(cfg), bound=bound_for(cfg, tier))
     ce.explore_e2()
     if hash(cfg.sid()) % 301 == 0:
         acc.sample({"configuration": cfg.sid(), "outcomes": ce.outcomes})
@@ -204,7 +229,8 @@ def run(ctx: Ctx) -> None:
         "execution is one evaluation; non-trivial = distinct (configuration, strategy kinds recorded, number of insertions)"
     )
     ctx.assumptions = ["emptiness judged by the domain's exact predicate; every rule met passes the domain gate (set arithmetic, sizes <= %d)" % GATE_N]
-    ctx.bounds = {"configurations": len(cfgs), "deviations": 1 if ctx.quick else 2, "horizon_packets": 60 if ctx.quick else 150}
+    ctx.bounds = {"configurations": len(cfgs), "deviations": 1 if ctx.quick else "2 on the quick tier's configurations (default execution <= 40 decision points), 1 on the extension",
+                  "horizon_packets": 60 if ctx.quick else 150}
     ctx.pmap(_worker, [(c.to_json(), ctx.tier) for c in cfgs], chunksize=2)
 
 
